@@ -932,3 +932,29 @@ def rule_report_bytes(ctx, prop):
                               f"the buffer produced by {name} does not reach create_diff's return value through the carriers the rule "
                               f"knows (`?`, context, map, transpose, Ok/Some): it is rebuilt or replaced on the way", f.loc(t["sp"]), cfg)
     return rep
+
+
+def rule_json_fields(ctx, prop):
+    """a consumer applies each mismatch as a line-range replacement: it needs all six fields of every record"""
+    rep = Report(prop, "R-DIFFSER", "the derived Serialize of DiffMismatch writes every field of the struct unconditionally (one serialize_field "
+                                    "per field, no skip_field / skip_serializing_if)")
+    for cfg, prog in ctx.programs.items():
+        prog = _view(prog)
+        fs = [g for g in prog.fns("stylua") if re.search(r"Serialize for output_diff::DiffMismatch>::serialize$", g.path)]
+        adt = prog.adt("output_diff::DiffMismatch", "stylua")
+        if not rep.anchor(len(fs) == 1 and adt is not None, "derived Serialize of output_diff::DiffMismatch", cfg):
+            continue
+        g = fs[0]
+        nfields = len(adt["variants"][0]["fields"])
+        ser = [b for b, t in g.calls() if re.search(r"SerializeStruct>?::serialize_field$", callee(t))]
+        skips = sorted({callee(t).split("::")[-1] for b, t in g.calls() if re.search(r"skip_field$|::is_empty$|Option::<.*>::is_none$", callee(t))})
+        dom = g.dominators()
+        rets = [bi for bi, b_ in enumerate(g.blocks) if b_["term"]["k"] == "return"]
+        ok = len(ser) == nfields and not skips
+        rep.inst(f"{g.key} serialises all {nfields} fields", {"serialize_field_calls": len(ser), "conditional": skips}, cfg, ok=ok)
+        if not ok:
+            rep.violation(f"stylua::output_diff::DiffMismatch json-field-conditional fields={len(ser)}/{nfields} via={','.join(skips) or 'count'}",
+                          f"the Serialize impl of DiffMismatch writes {len(ser)} of {nfields} fields unconditionally (conditional through "
+                          f"{skips or 'n/a'}): a pure deletion is printed without `expected`, a pure insertion without `original`, so the "
+                          f"JSON mismatches can no longer be applied as line-range replacements", g.loc(), cfg)
+    return rep
